@@ -15,7 +15,7 @@ import torch
 from torch.utils import _pytree as pytree
 
 
-__all__ = ["QTensor", "qfallback"]
+__all__ = ["QTensor", "qfallback", "functional_variant"]
 
 
 def qfallback(callable, *args, **kwargs):
@@ -27,6 +27,23 @@ def qfallback(callable, *args, **kwargs):
     """
     args, kwargs = pytree.tree_map_only(QTensor, lambda x: x.dequantize(), (args, kwargs or {}))
     return callable(*args, **kwargs)
+
+
+def functional_variant(op):
+    """Return the out-of-place variant of an aten operation that modifies its first argument in place
+
+    Returns None if the operation is not an in-place operation or if it has no out-of-place variant
+    with the same arguments.
+    """
+    schema = op._schema
+    args = schema.arguments
+    if not schema.name.endswith("_") or len(args) == 0 or args[0].alias_info is None or not args[0].alias_info.is_write:
+        return None
+    packet = getattr(torch.ops.aten, schema.name.split("::")[-1][:-1], None)
+    functional = getattr(packet, schema.overload_name or "default", None)
+    if functional is None or [a.name for a in functional._schema.arguments] != [a.name for a in args]:
+        return None
+    return functional
 
 
 class QTensor(torch.Tensor):
